@@ -31,11 +31,13 @@ int main(int argc, char **argv) {
     std::vector<int> Ps; for (auto &s : vr::split(A.get("P", "1,2,3"), ',')) Ps.push_back(atoi(s.c_str()));
     struct Case { int file, P, alg, pc, verbose; };
     std::vector<Case> cases;
-    for (int f = 0; f < (int) files.size(); ++f) for (int P : Ps) for (int alg = 0; alg < 3; ++alg) for (int pc = 0; pc < 2; ++pc) for (int v = 0; v < 2; ++v) cases.push_back({f, P, alg, pc, v});
+    for (int f = 0; f < (int) files.size(); ++f) for (int P : Ps) for (int alg = 0; alg < 5; ++alg) for (int pc = 0; pc < 2; ++pc) for (int v = 0; v < 2; ++v) cases.push_back({f, P, alg, pc, v});
     auto args_of = [&](const Case &c) {
         std::vector<std::string> a = {"mcb-dimacs-mpi", files[c.file].path};   // file first: boolean switches take an optional value
         if (c.alg == 1) { a.push_back("--signed=false"); a.push_back("--fvstrees=true"); }
         if (c.alg == 2) { a.push_back("--signed=false"); a.push_back("--isotrees=true"); }
+        if (c.alg == 3) { a.push_back("--signed=false"); }
+        if (c.alg == 4) { a.push_back("--signed=true"); a.push_back("--fvstrees=true"); a.push_back("--isotrees=true"); }
         if (c.pc) a.push_back("--printcycles");
         if (c.verbose) a.push_back("--verbose");
         return a;
